@@ -11,6 +11,26 @@ CHECKS = {
    note="Trusted: TLC, the projection pi (public properties only), Python list semantics for building states. Assumes the usage constraint of the statement (one parent at a time, no cycles, in-range insert index). Stored parent links of unlisted nodes are not judged.",
    technique="TLA+ spec (Metapype.tla/Forest.tla) model-checked by TLC; logged transition relation replayed into the code; recorded histories trace-validated by TLC (TraceForest.tla)",
    design="4/C09"),
+ "C12": dict(
+   text="TLC explores MC_Copy: 3 templates (every field populated, namespace dicts aliased between parents and children as the API creates them) x copy of any subtree x every single edit (thorough: every pair of edits) on any node of either tree - one mutator per mutable container a node owns; CopyOK (equal, disjoint, fresh registered ids, unlisted root) is an action property of the spec. Every transition is replayed after its genuine history and the full projection of both trees is compared, so any container shared between copy and original is written through by some explored edit and shows up in the other tree.",
+   note="Trusted: TLC, projection pi, interning of text. Small-scope: trees of <= 4 nodes; values from a 2-element universe per field.",
+   technique="TLA+ spec model-checked by TLC (MC_Copy); every logged transition replayed into the code with full two-tree projection compare",
+   design="4/C12"),
+ "C13": dict(
+   text="Frame and NsEffect are action properties of the spec, model-checked over all attach/detach/declare/re-declare/remove histories on 3 nodes (thorough: 2 prefixes, and 4 nodes without logging). Because dict aliasing is hidden state created by history, TLC's graph is replayed along paths (all paths to depth 4) and by a product exploration that visits every reachable (abstract state x alias partition) pair of the implementation with every enabled operation; long random histories over 6-10 nodes / 3 prefixes are trace-validated by TLC.",
+   note="Trusted: TLC, pi, id() for alias partitions. What attach does to maps strictly below the attached child is modelled for generation, not judged (the statement is silent).",
+   technique="TLA+ action properties checked by TLC; path replay + product exploration of TLC's graph against the code; trace validation of random histories",
+   design="4/C13"),
+ "C14": dict(
+   text="RegistryStep (the registry changes only by create/copy/import adding exactly the new ids and delete/replace-with-delete removing exactly the named subtree) is an action property checked by TLC over every history of create, import (xml/json), copy, attach, detach, replace(+-delete), delete(+-children) with <= 4 (thorough 5) ids; every transition is replayed after the genuine history of its source state, comparing registry membership by object identity, returned ids and id uniqueness. prune / expand / import on the EML fixture with planted junk are trace-validated (live nodes registered, discarded nodes gone, unrelated ids untouched); 20k-200k fresh ids checked for collisions.",
+   note="Trusted: TLC, pi. Preconditions of the statement are enabling conditions of the spec (no id reuse, delete only registered ids).",
+   technique="TLA+ action property checked by TLC (MC_Reg); transitions replayed after genuine histories; TraceForest.tla judges prune/expand/import events",
+   design="4/C14"),
+ "C18": dict(
+   text="TreeEq (name, content, tail, prefix, namespace map, attributes, extras, children recursively in order) is evaluated by TLC on every ordered pair of distinct nodes in every state of MC_Copy (templates, copies, and every single/double edit anywhere - i.e. pairs differing in exactly one field of one node at any depth and child position, plus unrelated subtrees); Node.is_equal is compared on all those pairs in both argument orders.",
+   note="Trusted: TLC, pi. Identical-object calls are not made.",
+   technique="TLA+ operator TreeEq evaluated by TLC on the MC_Copy state graph; compared with the code on every ordered node pair",
+   design="4/C18"),
 }
 NOT_YET = "machinery for this property is not built yet in this session (see DESIGN.md section 10 build order); not claimed"
 
